@@ -50,6 +50,7 @@ type Srv struct {
 	rec  []Call
 	n    int64
 	refl map[string]bool // canonical application metadata of the reflection streams
+	auth map[string]bool // :authority of every unary call and reflection stream
 
 	// fault injection (the target's ANSWERS are not pandora's: any status may come back)
 	plan    []uint32 // answer to the i-th unary call since SetPlan (0 = handle normally)
@@ -94,6 +95,31 @@ func (s *Srv) DrainReflMD() []string {
 	return out
 }
 
+func (s *Srv) noteAuthority(md metadata.MD) {
+	for _, a := range md.Get(":authority") {
+		s.mu.Lock()
+		if s.auth == nil {
+			s.auth = map[string]bool{}
+		}
+		s.auth[a] = true
+		s.mu.Unlock()
+	}
+}
+
+// DrainAuthorities returns the distinct :authority values of the unary calls and reflection streams
+// received since the previous DrainAuthorities, sorted.
+func (s *Srv) DrainAuthorities() []string {
+	s.mu.Lock()
+	defer s.mu.Unlock()
+	var out []string
+	for k := range s.auth {
+		out = append(out, k)
+	}
+	s.auth = nil
+	sort.Strings(out)
+	return out
+}
+
 // ReflMD returns the distinct application metadata sets seen on reflection streams, sorted.
 func (s *Srv) ReflMD() []string {
 	s.mu.Lock()
@@ -109,6 +135,7 @@ func (s *Srv) ReflMD() []string {
 func (s *Srv) streamIntercept(srv interface{}, ss grpc.ServerStream, info *grpc.StreamServerInfo, handler grpc.StreamHandler) error {
 	if strings.Contains(info.FullMethod, "ServerReflection") {
 		md, _ := metadata.FromIncomingContext(ss.Context())
+		s.noteAuthority(md)
 		s.mu.Lock()
 		if s.refl == nil {
 			s.refl = map[string]bool{}
@@ -227,6 +254,7 @@ func (s *Srv) intercept(ctx context.Context, req interface{}, info *grpc.UnarySe
 		c.Msg = "?"
 	}
 	md, _ := metadata.FromIncomingContext(ctx)
+	s.noteAuthority(md)
 	c.MD = CanonMD(md)
 	if dl, ok := ctx.Deadline(); ok {
 		c.TimeoutS = int(math.Round(time.Until(dl).Seconds()))
